@@ -189,7 +189,8 @@ def st_mini(files, max_extra=4, split=False):
         # identities: as in the file, or rewritten so that neighbours share a number and differ by insertion code
         # (20, 20A, 20B as in tRNA numbering), numbers descend in file order, or the chains appear in reverse
         # alphabetical order - shapes the corpus hardly contains
-        relabel = draw(st.sampled_from([None, None, None, "icode-runs-2", "icode-runs-3", "descending", "chains-reversed", "author-from-zero", "author-from-minus-2"]))
+        relabel = draw(st.sampled_from([None, None, None, "icode-runs-2", "icode-runs-3", "descending", "chains-reversed", "author-from-zero", "author-from-minus-2",
+                                        "chains-B10-B7", "chains-9-10"]))
         # residues reduced to a fragment, as in base-only ligands, coarse models or truncated deposits
         strip = []
         for slot in range(len(idx)):
@@ -365,6 +366,12 @@ def mini_ident_fn(relabel, idx):
         if relabel == "chains-reversed":
             half = (n + 1) // 2
             return ("T" if s < half else "P", 1 + s, None)
+        if relabel in ("chains-B10-B7", "chains-9-10"):
+            # chain names of assembly / bundle files: a common stem and digit runs of different length - as text "B10"
+            # sorts before "B7" and "10" before "9"
+            half = (n + 1) // 2
+            a, b = ("B7", "B10") if relabel == "chains-B10-B7" else ("9", "10")
+            return (a if s < half else b, 1 + s, None)
         raise ValueError(relabel)
 
     return fn
